@@ -7,12 +7,11 @@
 (*   {"e":"in","s":s,"k":k,"len":n}             the network hands packet k of sender s to the receiver's gateway           *)
 (*   {"e":"deliver","s":s,"size":z,"runs":[[s,n,o,l],..]}   the receiver's gateway handed over a Message attributed to s;  *)
 (*                                              runs = its bytes decoded as (sender, Message number, offset) runs          *)
-(*   {"e":"excuse","s":s,"n":n,"why":id}        Message n of s is covered by the predicate of open known finding id: no longer required   *)
 (*   {"e":"quiet"}                              everything was written and handed over                                    *)
 EXTENDS TunAbs, TLC, Json, IOUtils
 
 VARIABLES l,        \* next line
-          due,      \* [Senders -> Seq(BOOLEAN)]: TRUE = must be handed over on a perfect network; FALSE = may (limits / known finding)
+          due,      \* [Senders -> Seq(BOOLEAN)]: TRUE = must be handed over on a perfect network; FALSE = may (outside the limits / open known finding F15)
           perfect,
           pkts,     \* packets written so far (count), packets handed over
           bad       \* "" or the name of a packet-level promise that was broken (not part of the property: drift)
@@ -41,11 +40,9 @@ TIn    == /\ Ln.e = "in" /\ UNCHANGED <<sent, delivered, due, perfect, pkts, bad
 TDeliver == /\ Ln.e = "deliver"
             /\ delivered' = Append(delivered, [s |-> Ln.s, size |-> Ln.size, buf |-> [i \in 1..Len(Ln.runs) |-> ToRun(Ln.runs[i])]])
             /\ UNCHANGED <<sent, due, perfect, pkts, bad>>
-TExcuse == /\ Ln.e = "excuse" /\ Ln.s \in Senders /\ Ln.n \in 1..Len(due[Ln.s])
-           /\ due' = [due EXCEPT ![Ln.s][Ln.n] = FALSE] /\ UNCHANGED <<sent, delivered, perfect, pkts, bad>>
 TQuiet == /\ Ln.e = "quiet" /\ UNCHANGED <<sent, delivered, due, perfect, pkts, bad>>
 
-TraceNext == l <= N /\ l' = l + 1 /\ (TReset \/ TSend \/ TOut \/ TIn \/ TDeliver \/ TExcuse \/ TQuiet)
+TraceNext == l <= N /\ l' = l + 1 /\ (TReset \/ TSend \/ TOut \/ TIn \/ TDeliver \/ TQuiet)
 TraceSpec == TraceInit /\ [][TraceNext]_tvars
 
 \* clause 1, at every line
